@@ -1,7 +1,7 @@
 (* Props/C04.v -- property theorems only: Theorem / exact lemma / Check (pins the statement) / Print Assumptions.
    C04: a banded matrix behaves exactly like the dense matrix with the same band. *)
 From Coq Require Import List Arith ZArith QArith Qcanon Lia Floats.
-From OV Require Import Base.Panic Base.Arith Model.Vector Model.Matrix Model.Banded Inst.QcInst Inst.FloatInst Proofs.Banded Legacy.C04Refuted.
+From OV Require Import Base.Panic Base.Arith Base.Flat Model.Vector Model.Matrix Model.Banded Inst.QcInst Inst.FloatInst Proofs.Banded Proofs.BandedLU Legacy.C04Refuted.
 Import ListNotations.
 Local Open Scope nat_scope.
 
@@ -154,6 +154,34 @@ Check band_div_dense : forall (A : Arith) (FL : FieldLaws A) (B : banded A) (s :
 Print Assumptions band_div_dense.
 Example band_div_dense_nonvacuous : wfB ex_B /\ @eqb AQ (q 2 1) zero = false.
 Proof. split; [repeat split|reflexivity]. Qed.
+
+(* ---- the compact LU (left shift, window, row exchanges, stored multipliers) followed by forward and back
+   substitution is sound over any field, for all n, m2 and m1 <= n (the property quantifies over m1 < n; for
+   m1 > n the code falls off its buffer, which the `wide-bands` family of the check ties to the model): whatever
+   band_solve returns solves the dense twin's system, and so does whatever it returns on any matrix that differs
+   in padding slots only.  The proof does not use the pivot rule: any row of the window is a sound choice. ---- *)
+Theorem band_solve_sound : forall (A : Arith), FieldLaws A -> forall (B : banded A) (b x : list A),
+  wfB B -> length b = bn B -> bm1 B <= bn B ->
+  band_solve B b = Ok x ->
+  length x = bn B /\ dense_mulv B x = b /\
+  forall B' x', same_in_matrix_slots B B' -> band_solve B' b = Ok x' -> dense_mulv B x' = b.
+Proof. intros A FL B b x. exact (band_solve_sound_full FL B b x). Qed.
+Check band_solve_sound : forall (A : Arith), FieldLaws A -> forall (B : banded A) (b x : list A),
+  wfB B -> length b = bn B -> bm1 B <= bn B ->
+  band_solve B b = Ok x ->
+  length x = bn B /\ dense_mulv B x = b /\
+  forall B' x', same_in_matrix_slots B B' -> band_solve B' b = Ok x' -> dense_mulv B x' = b.
+Print Assumptions band_solve_sound.
+(* non-vacuity: a 4x4 system with m1 = 2, m2 = 1, zero leading entry (exchange at stage 0), a negative
+   entry of larger magnitude at stage 1 (second exchange), loud padding; the solver answers *)
+Definition ex_S : banded AQ :=
+  @mkB AQ 4 2 1 (@mkM AQ [q 77 1; q (-13) 1; q 0 1; q 2 1;    q 5 7; q (-3) 1; q 1 1; q 1 1;
+                          q 1 1; q 4 1; q (-1) 1; q 2 1;      q 2 1; q 0 1; q 3 1; q 1000 1] 4 4).
+Example band_solve_sound_nonvacuous :
+  wfB ex_S /\ length ([q 2 1; q (-1) 1; q 6 1; q 5 1] : list AQ) = bn ex_S /\ bm1 ex_S <= bn ex_S /\
+  is_ok (@band_solve AQ ex_S [q 2 1; q (-1) 1; q 6 1; q 5 1]) = true /\
+  fl_res (fl_list flat_q) (@band_solve AQ ex_S [q 2 1; q (-1) 1; q 6 1; q 5 1]) = [0; 4;  2; 1; 1;  2; 1; 1;  2; 1; 1;  2; 1; 1]%Z.
+Proof. split; [repeat split|]. split; [reflexivity|]. split; [cbn; lia|]. split; vm_compute; reflexivity. Qed.
 
 (* ---- the pre-repair pivot rule (signed comparison, unconditional division) is refuted by the committed witness.
    Exact tier here; the binary64 half ([[-2,1],[1e-20,1]] x = [-1,1]: legacy answers [0,1], repaired [1,1]) is
